@@ -139,6 +139,9 @@ def run(ck):
     # fused rings in several spellings (the pyrrole-type / pyridine-type choice depends on the visiting order)
     special += ['[cH-]1(~[Fe+2]~[cH-]2cccc2)cccc1', 'C[c-]1(~[Fe+2]~[c-]2(C)cccc2)cccc1', 'Cc1(~[Cr])ccccc1', 'CC[c-]1(~[Fe+2]~[cH-]2cccc2)cccc1', 'Cc1(~[Ru])ccc(C)cc1',
                 'c1(~[Cr])ccccc1', 'n1c2ncncc2ncc1', 'n1cnc2nccnc2c1', 'c12ccc3ncccc3c1cccn2', 'c1cnc2c(c1)ccc1cccnc12', 'c1cnc2ncncc2n1', 'n1ccnc2nccnc12', 'c1ncc2nccnc2n1', 'c1cc2nccnc2nn1']
+    # five-membered rings with a bridgehead nitrogen, fused through their C=C bond to a ring that is aromatised first
+    special += ['c1ccc2c(c1)sc1nccn12', 'c1ccc2c(c1)sc1cccn12', 'c1ccc2c(c1)oc1nccn12', 'c1cnc2sc3ncccc3n12'.replace('c1cnc2sc3ncccc3n12', 'c1cn2c(n1)sc1ncccc12'), 'c1csc2nccn12', 'c1cc2sccn2c1', 'Cc1cn2c(n1)sc1ccccc12',
+                'c1ccc2c(c1)n1cccc1n2C'.replace('c1ccc2c(c1)n1cccc1n2C', 'Cn1c2ccccc2n2cccc12')]
     must = set(special)
     cases = [{'key': s, 'smi': s, 'rs': rnd.randrange(1 << 30), 'must': s in must} for s in sel + special + doc_pairs() + ring_zoo(rnd, 150 if ck.quick else 4000)]
     seen, uc = set(), []
